@@ -548,7 +548,8 @@ pub fn run(cfg: &RunCfg) -> Report {
         "inter-name iteration order is unspecified and not compared; per-name value order is".into(),
         "reference multimap is a Vec<(lower-cased name, Vec<value>)> written in the harness".into(),
     ];
-    runner::replay_pinned(&mut rep, cfg, &|ph, c| replay(cfg, ph, c));
+    runner::replay_pinned(&mut rep, cfg, &replay);
+    runner::replay_regress(&mut rep, cfg, &replay);
     explore(
         &mut rep,
         cfg,
